@@ -164,7 +164,7 @@ def discrete_init(ctx, r):
     sent = {}
     for st in fn.body:
         if isinstance(st, ast.Assign) and isinstance(st.targets[0], ast.Attribute):
-            s = _sentinel(st.value)
+            s = _sentinel(st.value, fn)
             if s is not None:
                 sent[unparse(st.targets[0])] = s
     if sent.get("self._rows") is None or sent.get("self._cols") is None:
